@@ -223,9 +223,9 @@ class RecheckCheck:
         # R
         Ps = [32768] if quick else [16384, 32768, 65536]
         for P in Ps:
-            for sh in (["S1", "D1", "D1n", "D2n", "D3", "D3n", "D3d"] if quick
+            for sh in (["S1", "D1", "D1n", "D2n", "D3", "D3n", "D3d", "D3b"] if quick
                        else ["S1", "D1", "D1n", "D2n", "D3", "D3s", "D3n",
-                             "D3d", "D4"]):
+                             "D3d", "D3b", "D4"]):
                 n = world.nfiles(sh)
                 if n <= 2:
                     alpha = e1.r_alphabet(P, "quick", n)
